@@ -174,6 +174,22 @@ func genC16(seed uint64, tier string) *Plan {
 		}
 		pt := genPoint(r, u, p.Tables, PointOpts{SpanNanos: span, NoOdd: true}, pts, i)
 		pts = append(pts, pt)
+		if r.Bool(0.12) {
+			// the valid point travels in an RPC insert stream to S next to a
+			// malformed one (no dimensions / no values), which comes first or
+			// in the middle of the stream
+			st := Op{K: "rpcstream", Dt: PickOne(r, insDts[:4]), N: int64(r.Intn(2)), B: r.Bool(0.6)}
+			st.Sub = append(st.Sub, Op{K: "ins", P: pt})
+			for k := 0; k < r.Range(0, 2); k++ {
+				i++
+				n++
+				pt2 := genPoint(r, u, p.Tables, PointOpts{SpanNanos: span, NoOdd: true}, pts, i)
+				pts = append(pts, pt2)
+				st.Sub = append(st.Sub, Op{K: "ins", P: pt2})
+			}
+			p.Ops = append(p.Ops, st)
+			continue
+		}
 		p.Ops = append(p.Ops, Op{K: "ins", Dt: PickOne(r, insDts[:4]), P: pt})
 	}
 	p.Ops = append(p.Ops, Op{K: "check"})
@@ -360,6 +376,58 @@ func execC16(e *Env, p *Plan) error {
 			}
 			e.Count("op.sql")
 			e.Count("nontrivial")
+		case "rpcstream":
+			pn := NewPipeNet()
+			addr := fmt.Sprintf("s%d:17712", i)
+			stopRPC := pn.ServeRPC(s.DB, addr, 0, "")
+			client, derr := pn.DialRPC(addr, "")
+			if derr != nil {
+				stopRPC()
+				return fmt.Errorf("dial: %v", derr)
+			}
+			stream := op.Sub[0].P.Stream
+			ins, nerr := client.NewInserter(context.Background(), stream)
+			if nerr != nil {
+				return fmt.Errorf("new inserter: %v", nerr)
+			}
+			bad := func() {
+				ts := op.Sub[0].P.Time()
+				if op.N == 0 {
+					ins.Insert(ts, map[string]interface{}{}, func(cb func(string, interface{})) { cb("x", 1.0) })
+				} else {
+					ins.Insert(ts, map[string]interface{}{"da": "a"}, func(cb func(string, interface{})) {})
+				}
+				e.Count("probe.rpc-malformed-point")
+			}
+			if op.B {
+				bad()
+			}
+			for k := range op.Sub {
+				pt := op.Sub[k].P
+				// (errors of the stream are not the point: what counts is whether
+				// the valid points arrive, which "check" decides)
+				ins.Insert(pt.Time(), kvMap(pt.Dims), func(cb func(string, interface{})) {
+					kvs := append([]KV(nil), pt.Vals...)
+					sortKVs(kvs)
+					for _, kv := range kvs {
+						cb(kv.N, kv.V.Go())
+					}
+				})
+				if !op.B && k == 0 {
+					bad()
+				}
+				for _, n := range []*Node{d, leader} {
+					if err := n.Insert(pt); err != nil {
+						return fmt.Errorf("valid insert failed: %v", err)
+					}
+					time.Sleep(time.Microsecond)
+				}
+				e.Count("op.ins")
+			}
+			ins.Close()
+			client.Close()
+			stopRPC()
+			e.Count("op.rpcstream")
 		case "payload":
 			desc, pv, st := sendPayload(int(op.N), op.N2, op.S, s, leader, wf)
 			e.Logf("payload %s", desc)
